@@ -583,6 +583,9 @@ func init() {
 		Prefix: func(string, int) string { return "noble" },
 		Floors: func(c *Cov, tier string) []string {
 			var miss []string
+			if len(c.Matrix["C16_text_like_inputs"]) < 12 {
+				miss = append(miss, fmt.Sprintf("text-like input classes: %d", len(c.Matrix["C16_text_like_inputs"])))
+			}
 			for l := 0; l <= 200; l++ {
 				if c.Matrix["C16_msg_len"][fmt.Sprint(l)] == 0 || c.Matrix["C16_burn_len"][fmt.Sprint(l)] == 0 {
 					miss = append(miss, fmt.Sprintf("length %d not covered", l))
